@@ -4,8 +4,8 @@ Spec:  spec/Session.tla (operation alphabet, process-level shared state with per
        flavours, contract Result(op, history) = Result(op, <<>>), self-test bugs), spec/SessionTrace.tla.
 Model: TLC enumerates every history of length <= 2 (quick) / <= 3 (thorough) over the 13 symbols, checks
        HistoryFree / StackEmptyBetweenOps on the model and emits every history with its exposure.
-S->C:  every maximal history is executed in ONE fresh python subprocess (vf.session_ops); its prefixes are the
-       shorter histories.  Baselines Result(op, <<>>) come from two independent fresh processes per symbol.
+S->C:  every history of length 2 is executed in ONE fresh python subprocess (vf.session_ops); thorough: every
+       history of length 3 is a window of a longer session (de Bruijn segments, one fresh process each).  Baselines Result(op, <<>>) come from two independent fresh processes per symbol.
        All results are interned and compared by TLC (SessionTrace: SameAsFresh, FreshRepeatable).
 C->S:  read-only part: the real CLI (`python -m sqlfluff lint|parse|render`) runs under
        `strace -f -e trace=%file,...` on copies of the tree; every successful file-system call on a path under
@@ -43,20 +43,20 @@ def tlc_workers():
     return min(int(os.environ.get("VF_PROCS", "0") or 0), 16) or "auto"
 
 
-def child_env() -> Dict[str, str]:
+def child_env(hashseed: str = "0") -> Dict[str, str]:
     env = dict(os.environ)
     harness = os.path.dirname(os.path.dirname(os.path.abspath(session_ops.__file__)))
     env["PYTHONPATH"] = f"{harness}:{os.path.join(REPO, 'src')}"
-    env["PYTHONHASHSEED"] = "0"
+    env["PYTHONHASHSEED"] = hashseed
     env["PYTHONDONTWRITEBYTECODE"] = "1"
     env.pop("XDG_CONFIG_HOME", None)
     return env
 
 
 # ------------------------------------------------------------------ sessions
-def run_session(tree: str, ops: List[dict], timeout: int = 900) -> List[dict]:
+def run_session(tree: str, ops: List[dict], timeout: int = 1800, hashseed: str = "0") -> List[dict]:
     p = subprocess.run([PY, "-B", "-m", "vf.session_ops", tree, json.dumps(ops)], capture_output=True, text=True,
-                       env=child_env(), timeout=timeout)
+                       env=child_env(hashseed), timeout=timeout)
     out = [json.loads(line[5:]) for line in p.stdout.splitlines() if line.startswith("VFOP ")]
     if not out and p.returncode != 0:
         raise MachineryError(f"session process failed before its first operation:\n{p.stderr[-2000:]}")
@@ -198,6 +198,32 @@ def model(rep: Report, maxlen: int):
     return m
 
 
+def segments_covering(triples, nsym: int, windows: int) -> List[List[int]]:
+    """Cut a de Bruijn sequence B(nsym, 3) into overlapping segments; every history of length 3 that TLC emitted
+    must be a window of some segment (checked, else machinery failure)."""
+    k, n = nsym, 3
+    a, seq = [0] * (k * n), []
+
+    def db(t, p):
+        if t > n:
+            if n % p == 0:
+                seq.extend(a[1:p + 1])
+        else:
+            a[t] = a[t - p]
+            db(t + 1, p)
+            for j in range(a[t - p] + 1, k):
+                a[t] = j
+                db(t + 1, t)
+
+    db(1, 1)
+    cyc = [x + 1 for x in seq] + [seq[0] + 1, seq[1] + 1]
+    segs = [cyc[i:i + windows + 2] for i in range(0, len(cyc) - 2, windows)]
+    seen = {tuple(sg[j:j + 3]) for sg in segs for j in range(len(sg) - 2)}
+    if set(triples) - seen:
+        raise MachineryError(f"de Bruijn segments miss {len(set(triples) - seen)} of the {len(triples)} histories of length 3")
+    return segs
+
+
 def short_diff(a: str, b: str, n: int = 12) -> str:
     try:
         a2, b2 = json.dumps(json.loads(a), indent=0, sort_keys=True), json.dumps(json.loads(b), indent=0, sort_keys=True)
@@ -219,7 +245,15 @@ def run(tier: str, seed: int) -> int:
     singles = sorted((r for r in m.records if len(r["hist"]) == 1), key=lambda r: r["hist"][0])
     symbols = {r["hist"][0]: r["ops"][0] for r in singles}
     nsym = len(symbols)
-    maximal = sorted((r for r in m.records if len(r["hist"]) == maxlen), key=lambda r: r["hist"])
+    # every history of length 2 runs in its own fresh process (its prefix is the history of length 1)
+    maximal = sorted((r for r in m.records if len(r["hist"]) == 2), key=lambda r: r["hist"])
+    # thorough: every history of length 3 is a window of one of a few longer sessions (de Bruijn segments), so that the
+    # cost is per operation and not per process; a step that differs there is a violation like any other
+    triples = sorted(tuple(r["hist"]) for r in m.records if len(r["hist"]) == 3)
+    expo3 = {tuple(r["hist"]): r["exposure"] for r in m.records if len(r["hist"]) == 3}
+    segments = segments_covering(triples, nsym, 110) if triples else []
+    for seg in segments:
+        maximal.append({"hist": seg, "ops": [symbols[s] for s in seg], "exposure": [[]], "segment": True})
     base = scratch("c32")
     intern = Interner()
     traces: List[dict] = []
@@ -230,7 +264,9 @@ def run(tier: str, seed: int) -> int:
         before = snapshot(tree)
         with ThreadPoolExecutor(max_workers=nprocs()) as ex:
             # Result(op, <<>>): two independent fresh processes per symbol
-            fresh = list(ex.map(lambda s: run_session(tree, [symbols[s]]), [s for s in sorted(symbols) for _ in (0, 1)]))
+            # (the second one under a different PYTHONHASHSEED: a new process may order its sets differently)
+            fresh = list(ex.map(lambda sk: run_session(tree, [symbols[sk[0]]], hashseed=sk[1]),
+                                [(s, hs) for s in sorted(symbols) for hs in ("0", str(seed % 4000000000 + 1))]))
             hist_out = list(ex.map(lambda r: run_session(tree, r["ops"]), maximal))
             ro = list(ex.map(strace_run, [(n, c, base, None) for n, c in enumerate(cli_commands(tier))]))
         base1, base2 = [0] * nsym, [0] * nsym
@@ -252,6 +288,11 @@ def run(tier: str, seed: int) -> int:
             rep.evaluated(len(out))
             if any(r["exposure"]):
                 rep.nontrivial(tid)
+            if r.get("segment"):
+                for j in range(2, len(out)):
+                    w = tuple(r["hist"][j - 2:j + 1])
+                    if any(expo3.get(w, [[]])):
+                        rep.nontrivial("h" + "-".join(map(str, w)))
             for j, o in enumerate(out):
                 if o["stack"]:
                     rep.drift.append(f"StackEmptyBetweenOps: BlockTracker._stack has depth {o['stack']} after step {j + 1} "
@@ -278,16 +319,19 @@ def run(tier: str, seed: int) -> int:
                 r, out = info["rec"], info["out"]
                 j = rj["step"] - 1
                 op = r["ops"][j] if j < len(r["ops"]) else {"op": "?", "file": "?", "via": "?"}
+                prev = r["ops"][max(0, j - 2):j] if r.get("segment") else r["ops"][:j]
                 sig = {"op": op["op"], "file": op["file"], "via": op["via"],
-                       "after": ",".join(sym_name(x) for x in r["ops"][:j])}
-                what = f"history {[sym_name(x) for x in r['ops']]} in one process: step {rj['step']} ({sym_name(op)}) "
+                       "after": ",".join(sym_name(x) for x in prev)}
+                shown = r["ops"][max(0, j - 6):j + 1] if r.get("segment") else r["ops"]
+                what = (f"history {'... ' if r.get('segment') and j > 6 else ''}{[sym_name(x) for x in shown]} in one process: "
+                        f"step {rj['step']} ({sym_name(op)}) ")
                 if clause == "SameAsFresh" and j < len(out):
                     what += "differs from its fresh-process result: " + short_diff(intern.texts[base1[r['hist'][j] - 1] - 1], out[j]["result"])
                 elif clause == "FreshRepeatable":
                     s = r["hist"][j]
                     what += "gives different results in two fresh processes: " + short_diff(intern.texts[base1[s - 1] - 1], intern.texts[base2[s - 1] - 1])
                     sig["after"] = ""
-                rep.violation(clause, sig, what, {"kind": "history", "ops": r["ops"], "hist": r["hist"], "verdict": rj})
+                rep.violation(clause, sig, what, {"kind": "history", "ops": r["ops"][:j + 1], "hist": r["hist"][:j + 1], "verdict": rj})
             elif "cmd" in info:
                 j = rj["step"] - 1
                 allev = info["events"] + stat_events(info["cmd"]["op"], info["before"], info["after"], Interner())
@@ -298,20 +342,22 @@ def run(tier: str, seed: int) -> int:
             else:
                 rep.violation(clause, {"op": "session"}, f"{info['what']}: an input file changed during the in-process sessions "
                               f"(step {rj['step']})", {"kind": "tree", "verdict": rj})
-        k = len(maximal) // 2
+        k = min(len(maximal) // 2, 84)
         rep.sample({"history": [sym_name(x) for x in maximal[k]["ops"]], "exposure": maximal[k]["exposure"],
                     "result_ids": [e["result"] for e in traces[k]["events"]], "fresh_ids": [base1[s - 1] for s in maximal[k]["hist"]]})
         rep.sample({"readonly": ro[0]["cmd"], "fs_calls_on_inputs": len(ro[0]["events"]),
                     "kinds": sorted({e["kind"] for e in ro[0]["events"]})})
         rep.extra["histories_enumerated"] = len(m.records)
-        rep.extra["maximal_histories_run"] = len(maximal)
+        rep.extra["sessions_run"] = len(maximal)
+        rep.extra["length3_histories_covered_as_windows"] = len(triples)
         rep.extra["distinct_results"] = len(intern.texts)
     finally:
         shutil.rmtree(base, ignore_errors=True)
     rep.exhaustive = True
     rep.rule = (f"TLC enumerates every history of length <= {maxlen} over 13 (operation, file, entry point) symbols; every "
-                "maximal history runs in one fresh process (its prefixes are the shorter histories), each step compared with "
-                "two fresh-process baselines.  Non-trivial history = TLC's exposure is non-empty (some step touches shared "
+                "history of length 2 runs in one fresh process (its prefix is the history of length 1); in the thorough tier "
+                "every history of length 3 is a window of one of ~20 longer sessions (de Bruijn segments, one fresh process each); "
+                "each step is compared with two fresh-process baselines.  Non-trivial history = TLC's exposure is non-empty (some step touches shared "
                 "state left in a foreign flavour by an earlier step); each strace'd CLI run counts as one")
     rep.trusted_base = ["vf.session_ops (operation runner; result = canonical JSON of violations/records/rendered/fixed)",
                         "strace line parser (successful calls, path under the tree, open flags -> read/write-open)",
@@ -336,7 +382,7 @@ def replay(path, tier, seed):
             out = run_session(tree, case["ops"])
             base1, base2 = [0] * nsym, [0] * nsym
             for s, op in zip(case["hist"], case["ops"]):
-                a, b = run_session(tree, [op]), run_session(tree, [op])
+                a, b = run_session(tree, [op]), run_session(tree, [op], hashseed=str(seed % 4000000000 + 1))
                 base1[s - 1], base2[s - 1] = intern(a[0]["result"]), intern(b[0]["result"])
             traces = [{"id": "replay", "kind": "history", "hist": case["hist"], "base": base1, "base2": base2,
                        "events": [{"ev": "Op", "sym": case["hist"][j], "result": intern(o["result"])} for j, o in enumerate(out)]
